@@ -87,3 +87,24 @@ Theorem sem2_b_iff {RG : ReGroups} re_match parse_float json_get hash_labels q c
 Proof.
   unfold sem2_b, logql_sem2. destruct (c_limit c =? 0)%Z; [apply perm_b_iff|apply topk_b_iff].
 Qed.
+
+(* the boolean oracle for the rows of Plan(script, false) *)
+Lemma ts_sorted_b_iff asc l : ts_sorted_b asc l = true <-> ts_sorted asc l.
+Proof.
+  unfold ts_sorted. induction l as [|a l IH]; [split; [constructor|reflexivity]|].
+  destruct l as [|b r].
+  - split; [intros _; constructor; constructor|reflexivity].
+  - change (ts_sorted_b asc (a :: b :: r)) with
+      ((if asc then Z.leb (o_ts a) (o_ts b) else Z.leb (o_ts b) (o_ts a)) && ts_sorted_b asc (b :: r)).
+    rewrite andb_true_iff, IH. split.
+    + intros [Hab Hs]. constructor; [exact Hs|]. inversion Hs as [|? ? Hs' Hall]; subst.
+      assert (Hab' : if asc then (o_ts a <= o_ts b)%Z else (o_ts b <= o_ts a)%Z) by (destruct asc; now apply Z.leb_le).
+      constructor; [exact Hab'|]. rewrite Forall_forall in *. intros x Hx. specialize (Hall x Hx).
+      destruct asc; lia.
+    + intros Hs. inversion Hs as [|? ? Hs' Hall]; subst. split; [|exact Hs'].
+      inversion Hall as [|? ? Hab _]; subst. destruct asc; now apply Z.leb_le.
+Qed.
+Theorem sem2_bp_b_iff {RG : ReGroups} re_match parse_float json_get hash_labels q c d res :
+  sem2_bp_b re_match parse_float json_get hash_labels q c d res = true
+  <-> Permutation res (log_rows2 re_match parse_float json_get hash_labels q c d) /\ ts_sorted (c_asc c) res.
+Proof. unfold sem2_bp_b. rewrite andb_true_iff, perm_b_iff, ts_sorted_b_iff. reflexivity. Qed.
